@@ -172,7 +172,7 @@ func (c *ctx) snssaiToModels(l uint8, octet [8]uint8) (models.Snssai, res) {
 func (c *ctx) requestedNssaiToModels(l uint8, buffer []byte) ([]models.MappingOfSnssai, error, res) {
 	var out []models.MappingOfSnssai
 	var err error
-	v := nasType.RequestedNSSAI{Len: l, Buffer: append([]byte{}, buffer...)}
+	v := nasType.RequestedNSSAI{Len: l, Buffer: hk.Exact(buffer)}
 	x := guard(func() { out, err = nasConvert.RequestedNssaiToModels(&v) })
 	o := "OMappings " + coqMappings(out)
 	key := ""
@@ -244,7 +244,7 @@ func (c *ctx) serviceArea(p models.PlmnId, sar models.ServiceAreaRestriction) ([
 
 func (c *ctx) ladnToModels(buf []byte) ([]string, res) {
 	var out []string
-	in := append([]byte{}, buf...)
+	in := hk.Exact(buf)
 	x := guard(func() { out = nasConvert.LadnToModels(in) })
 	key := ""
 	if len(out) > 0 {
@@ -268,7 +268,7 @@ func (c *ctx) ladnToNas(dnn string, l []models.Tai) ([]byte, res) {
 
 func (c *ctx) ueSecCap(buf []byte) ([4][2]byte, res) {
 	var o [4][2]byte
-	in := append([]byte{}, buf...)
+	in := hk.Exact(buf)
 	x := guard(func() { o[0], o[1], o[2], o[3] = nasConvert.UESecurityCapabilityToByteArray(in) })
 	key := ""
 	if len(buf) >= 2 {
@@ -295,7 +295,7 @@ func (c *ctx) upuInfoToNas(u models.UpuInfo) ([]byte, res) {
 func (c *ctx) upuAckToModels(buf []byte) (string, error, res) {
 	var out string
 	var err error
-	in := append([]byte{}, buf...)
+	in := hk.Exact(buf)
 	x := guard(func() { out, err = nasConvert.UpuAckToModels(in) })
 	o := "OBytes " + hk.CoqStr(out)
 	key := ""
@@ -312,7 +312,7 @@ func (c *ctx) upuAckToModels(buf []byte) (string, error, res) {
 
 func (c *ctx) getDNN(buffer []byte) (string, res) {
 	var out string
-	d := nasType.DNN{Len: uint8(len(buffer)), Buffer: append([]byte{}, buffer...)}
+	d := nasType.DNN{Len: uint8(len(buffer)), Buffer: hk.Exact(buffer)}
 	x := guard(func() { out = d.GetDNN() })
 	key := ""
 	if len(out) > 0 {
